@@ -8,7 +8,7 @@ let handle (line : string) : string =
     (match split_ws head with
      | ["tb"; npos; nneg; "1"] ->
         let l = parse_link ls in
-        let (np, nn) = (int_of_string npos, int_of_string nneg) in
+        (match model_signs l (int_of_string npos) (int_of_string nneg) with Error e -> e | Ok (np, nn) ->
         let seg red =
           if red && l = [] then [] else
           let rede = if red then first_edge l else None in
@@ -19,7 +19,7 @@ let handle (line : string) : string =
               let qs' = np - 2 * nn + (if red then 1 else 0) in
               Stdlib.List.map (fun w -> Printf.sprintf "%s%d[%s]" w (if red then 1 else 0) (bitable_of qs (- nn) qs' w))
                 ["Z"; "Q"; "F2"; "F3"]) in
-        String.concat " " (seg false @ seg true)
+        String.concat " " (seg false @ seg true))
      | "tb" :: _ | "wt" :: _ -> "SKIP"
      | _ -> failwith "bad case head")
 
